@@ -26,23 +26,27 @@ package main
 
 //@ func (*listenerSet).ListenStream
 //@   props C10 C13 C18 C19
+//@   params ls addr
 //@   acquires-level 5
 //@   requires ls != nil && ls.manager != nil
 //@   assume-at-lock ls.listenerCloseFuncs != nil
 //@   ensures result.1 == nil ==> result.0 != nil
 //@ func (*listenerSet).ListenPacket
 //@   props C10 C13 C18 C19
+//@   params ls addr
 //@   acquires-level 5
 //@   requires ls != nil && ls.manager != nil
 //@   assume-at-lock ls.listenerCloseFuncs != nil
 //@   ensures result.1 == nil ==> result.0 != nil
 //@ func (*listenerSet).Close
 //@   props C10 C13 C18 C19
+//@   params ls
 //@   acquires-level 5
 //@   requires ls != nil
 //@   ghost-at-exit ls.closed := true
 //@ func (*listenerSet).Len
 //@   props C18 C19
+//@   params ls
 //@   requires ls != nil
 //@   trusted-access listenerSet.listenerCloseFuncs Len is only called by the goroutine that owns the set, after it has finished adding listeners
 
@@ -60,6 +64,7 @@ package main
 
 //@ func (*OutlineServer).Stop
 //@   props C10 C18
+//@   params s
 //@   requires s != nil
 //@   trace[C10,stops-current-once] atmost 1 main.OutlineServer.stopConfig
 
@@ -67,6 +72,7 @@ package main
 // not stopped; on success the old one is stopped exactly once, after the new one started.
 //@ func (*OutlineServer).loadConfig
 //@   props C07 C10 C11 C18 C19
+//@   params s filename
 //@   requires validServer(s)
 //@   ensures[C10,failure-keeps-old] result != nil ==> s.stopConfig == old(s.stopConfig)
 //@   trace[C10,failure-does-not-stop-old] never main.(*OutlineServer).Stop when result != nil
@@ -77,9 +83,11 @@ package main
 
 //@ func readConfig
 //@   props C18
+//@   params configData
 //@   ensures result.1 == nil ==> result.0 != nil
 //@ func (*Config).Validate
 //@   props C09 C18
+//@   params c
 //@   requires c != nil
 //@   trace[C09,hostnames-rejected] each net.ParseIP satisfies $res0 == nil ==> result != nil
 //@   trace[C09,malformed-address-rejected] each net.SplitHostPort satisfies $res2 != nil ==> result != nil
@@ -89,6 +97,7 @@ package main
 
 //@ func (*OutlineServer).runConfig
 //@   props C10 C18
+//@   params s config
 //@   requires validServer(s)
 //@   ensures result.1 == nil ==> result.0 != nil
 
@@ -140,6 +149,7 @@ package main
 //@ pred validServerMetrics(m *serverMetrics) := m != nil && m.buildInfo != nil && m.accessKeys != nil && m.ports != nil
 //@ func (*serverMetrics).SetNumAccessKeys
 //@   props C18
+//@   params m numKeys ports
 //@   requires validServerMetrics(m)
 
 //@ func RunOutlineServer$1
@@ -148,6 +158,7 @@ package main
 //@   requires validServer(server) && sigHup != nil
 //@ func RunOutlineServer
 //@   props C07 C18 C19
+//@   params filename natTimeout serverMetrics serviceMetrics replayHistory
 //@   requires replayHistory <= 20000 && validServerMetrics(serverMetrics)
 
 // newCipherListFromConfig: per configured key, an entry is appended exactly when its (cipher, secret)
@@ -155,6 +166,7 @@ package main
 // the pair is recorded then; so the list is Keys with later duplicates dropped, first ID kept.
 //@ func newCipherListFromConfig
 //@   props C01 C09 C18
+//@   params config
 //@   loop 1 invariant cipherList != nil && keyListOK(cipherList) && existingCiphers != nil
 //@   trace[C09,dedup-key-is-cipher-and-secret] loop 1 holds key.cipher == keyConfig.Cipher && key.secret == keyConfig.Secret
 //@   trace[C09,looks-up-this-pair] loop 1 each maplookup satisfies $arg0 == existingCiphers && $arg1 == mapkey(key)
